@@ -425,56 +425,48 @@ func VerifHarness_C13_call() {
 	vfBuildAndCheck(def, vfChoice("opts", vfOptN))
 }
 
-// handlers, DAG-level pointers and lists
+// handlers, DAG-level pointers and lists: one dimension at a time carries its menu
 func VerifHarness_C13_handlers() {
 	def := vfBaseDef()
-	switch vfChoice("h.exit", 4) {
-	case 1:
-		def.HandlerOn.Exit = &stepDef{Command: vfTree("h.exit.cmd", 1)}
-	case 2:
-		def.HandlerOn.Exit = &stepDef{Name: vfS("h.exit.name"), Executor: vfScalar("h.exit.exec", false)}
-	case 3:
-		def.HandlerOn.Exit = &stepDef{}
-	}
-	if def.HandlerOn.Exit != nil {
-		switch vfChoice("h.exit.pre", 3) {
+	switch vfChoice("dim", 4) {
+	case 0: // shape of a handler step
+		switch vfChoice("h.exit", 3) {
+		case 0:
+			def.HandlerOn.Exit = &stepDef{Command: vfTree("h.exit.cmd", 1)}
 		case 1:
-			def.HandlerOn.Exit.Preconditions = []*conditionDef{nil}
+			def.HandlerOn.Exit = &stepDef{Name: vfS("h.exit.name"), Executor: vfScalar("h.exit.exec", false)}
 		case 2:
+			def.HandlerOn.Exit = &stepDef{}
+		}
+	case 1: // preconditions of a handler step (null items included)
+		def.HandlerOn.Exit = &stepDef{Command: "true"}
+		if vfChoice("h.exit.pre", 2) == 1 {
+			def.HandlerOn.Exit.Preconditions = []*conditionDef{nil}
+		} else {
 			def.HandlerOn.Exit.Preconditions = []*conditionDef{{Condition: vfS("h.pre.cond"), Expected: vfS("h.pre.exp")}}
 		}
-	}
-	if vfChoice("h.more", 2) == 1 {
+	case 2: // the other three handlers
 		def.HandlerOn.Failure = &stepDef{Command: vfScalar("h.fail.cmd", false)}
 		def.HandlerOn.Success = &stepDef{Command: "true"}
 		def.HandlerOn.Cancel = &stepDef{Run: vfS("h.cancel.run")}
 		if vfChoice("h.cancel.pre", 2) == 1 {
 			def.HandlerOn.Cancel.Preconditions = []*conditionDef{nil}
 		}
-	}
-	switch vfChoice("d.pre", 3) {
-	case 1:
-		def.Preconditions = []*conditionDef{nil}
-	case 2:
-		def.Preconditions = []*conditionDef{{Condition: vfS("pre.cond"), Expected: vfS("pre.exp")}}
-	}
-	if vfChoice("d.ptrs", 2) == 1 {
-		h, m := vfInt("hist"), vfInt("cleanup")
-		def.HistRetentionDays, def.MaxCleanUpTimeSec = &h, &m
-		def.MailOn = &mailOnDef{Failure: vfBool("mf"), Success: vfBool("ms")}
+	case 3: // DAG-level lists and pointers
+		switch vfChoice("d.pre", 3) {
+		case 1:
+			def.Preconditions = []*conditionDef{nil}
+		case 2:
+			def.Preconditions = []*conditionDef{{Condition: vfS("pre.cond"), Expected: vfS("pre.exp")}}
+		}
+		if vfChoice("d.ptrs", 2) == 1 {
+			h, m := vfInt("hist"), vfInt("cleanup")
+			def.HistRetentionDays, def.MaxCleanUpTimeSec = &h, &m
+			def.MailOn = &mailOnDef{Failure: vfBool("mf"), Success: vfBool("ms")}
+		}
 	}
 	vfBuildAndCheck(def, vfChoice("opts", vfOptN))
 }
-
-// C19 entries: the non-evaluating option sets only
-func VerifHarness_C19_schedule() { vfOptN = 2; VerifHarness_C13_schedule() }
-func VerifHarness_C19_env()      { vfOptN = 2; VerifHarness_C13_env() }
-func VerifHarness_C19_tags()     { vfOptN = 2; VerifHarness_C13_tags() }
-func VerifHarness_C19_strings()  { vfOptN = 2; VerifHarness_C13_strings() }
-func VerifHarness_C19_step()     { vfOptN = 2; VerifHarness_C13_step() }
-func VerifHarness_C19_executor() { vfOptN = 2; VerifHarness_C13_executor() }
-func VerifHarness_C19_call()     { vfOptN = 2; VerifHarness_C13_call() }
-func VerifHarness_C19_handlers() { vfOptN = 2; VerifHarness_C13_handlers() }
 
 // C13.precond: evaluating the preconditions of an accepted DAG never crashes, whatever
 // the condition, the expected pattern ("re:" patterns valid or not) and the command output.
